@@ -242,6 +242,14 @@ func (r *Run) Violation(key, what string, detail any) {
 	fmt.Printf("  what: %s\n  key: %s\n", shown, printable(key))
 }
 
+// KnownOpen reports whether key is listed as an open known finding.
+func (r *Run) KnownOpen(key string) bool {
+	r.mu.Lock()
+	defer r.mu.Unlock()
+	_, ok := r.knownOpen[key]
+	return ok
+}
+
 // Saturated reports that enough violations were recorded to stop exploring
 // (a run that is already failing need not pay for more watchdog timeouts).
 func (r *Run) Saturated() bool {
